@@ -343,14 +343,15 @@ fn do_repro_cent(src: &Source, t: &mut Toks, o: &mut Out) {
 /// one canonicalised answer: (function tag, integer content, float content)
 type Item = (i64, Vec<i64>, Vec<f64>);
 
-pub const ALL_TAGS: [&str; 25] = [
+pub const ALL_TAGS: [&str; 27] = [
     "square_clustering", "bfs_equal_size_partitions(1)", "bfs_equal_size_partitions(2)", "bfs_equal_size_partitions(3)",
     "bfs_equal_size_partitions(4)", "clustering(unweighted)", "clustering(weighted)", "average_clustering", "transitivity",
     "triangles", "generalized_degree", "connected_components", "weakly_connected_components",
     "strongly_connected_components", "eigenvector_centrality", "degree_centrality", "dijkstra::all_pairs",
     "modularity(components)", "breadth_first_search", "closeness_centrality", "betweenness_centrality",
     "node_connected_component", "dijkstra::all_pairs(target)", "dijkstra::multi_source(all paths)",
-    "dijkstra::multi_source(first_only, distances)",
+    "dijkstra::multi_source(first_only, distances)", "get_subgraph(every other name): node order",
+    "louvain_communities(seed 1) of that subgraph",
 ];
 
 fn all_algorithms(g: &G, weighted: bool) -> Vec<Item> {
@@ -497,6 +498,18 @@ fn all_algorithms(g: &G, weighted: bool) -> Vec<Item> {
         let srcs = all.clone();
         out.push(pairs(24, guard(|| dijkstra::multi_source(g, weighted, srcs, Some(t0), None, true, false))));
     }
+    // a derived graph and a seeded run on it: the subgraph keeps the source's node order (C15), so the seeded
+    // Louvain result on it is a function of the arguments too
+    {
+        let pick: Vec<i64> = all.iter().step_by(2).cloned().collect();
+        match guard(|| g.get_subgraph(&pick)) {
+            None => out.push((25, vec![PANIC], vec![])),
+            Some(h) => {
+                out.push((25, h.get_all_nodes().iter().map(|n| n.name).collect(), vec![]));
+                out.push(sets(26, guard(|| louvain::louvain_communities(&h, weighted, None, None, Some(1)))).0);
+            }
+        }
+    }
     out.push(fmap(19, guard(|| closeness::closeness_centrality(g, weighted, true))));
     out.push(fmap(20, guard(|| betweenness::betweenness_centrality(g, weighted, true))));
     out
@@ -623,6 +636,8 @@ pub fn run_case(lines: &[Vec<String>], o: &mut Out) {
         None => None,
         Some(sp) => {
             source = Some((nodes.clone(), edges.clone(), sp.clone()));
+            // equal edges of the list are handed over as clones of ONE Arc (hist::share_equal)
+            let edges = crate::hist::share_equal(edges);
             let r = guard(|| Graph::new_from_nodes_and_edges(nodes, edges, sp));
             o.obs(1, &[vec![res_code(&r)]], &[]);
             match r {
